@@ -860,7 +860,7 @@ fn strategy(tier: Tier) -> BoxedStrategy<Case> {
 pub fn main(args: &Args) -> i32 {
     let cases = match args.tier {
         Tier::Quick => 160,
-        Tier::Thorough => 16 * 40,
+        Tier::Thorough => 16 * 300,
     };
     let tier = args.tier;
     let spec = Spec {
